@@ -898,6 +898,13 @@ func recalcDepth(peers *pslice.PSlice, radius uint8, filter peerFilterFunc) uint
 			// therefore we can return assuming that bin is the unsaturated one.
 			return true, false, nil
 		}
+		if bin > shallowestUnsaturated+1 {
+			// the bins in between hold peers, but no reachable one: the first of
+			// them is the shallowest unsaturated bin
+			shallowestUnsaturated++
+			binCount = 0
+			return true, false, nil
+		}
 		shallowestUnsaturated = bin
 		binCount = 1
 
